@@ -477,6 +477,7 @@ class Project:
         return cur
 
     def resolve_expr(self, module, node, scope_node=None):
+        module = getattr(node, "_home_module", None) or module  # statements inlined from another module keep its globals
         ch = attr_chain(node)
         if ch is None:
             return None
@@ -1000,7 +1001,7 @@ def resolve_callee(project, call_or_expr, module=None):
     ('local', name) | ('attr', base, rest) | None.
     Nested function definitions in enclosing scopes are honoured (closures)."""
     expr = call_or_expr.func if isinstance(call_or_expr, ast.Call) else call_or_expr
-    module = module or project.module_of(expr)
+    module = getattr(expr, "_home_module", None) or module or project.module_of(expr)
     if module is None:
         return None
     if isinstance(expr, ast.Name):
